@@ -600,6 +600,216 @@ class DiskHistory:
         return out
 
 
+
+# ------------------------------------------------------------------------------------------ malformed restart images
+class MalformedHistory:
+    """A run is stopped after a completed step, ONE vector of `[current.frac]` in its restart file is replaced by a
+    vector that does not have n entries (a hand-edited file; `check_config` only compares [current].size), the real
+    `REPEX_state.__init__` + `load_paths` rebuild the sampler from it (they accept any length) and the run goes on for
+    one completed step.  The code's `frac += P[idx, :]` raises ValueError as soon as the path is idle and live at a
+    recording — after crediting the paths before it, before anything is written; the model runs `treatOutputChecked`
+    (Model/DataFileNp.lean).  Compared: the error kind, the state the sampler object is left in (partial credit), the
+    files.  Predicates on the real side: a raise leaves both files untouched; a malformed vector is never silently
+    credited."""
+
+    def __init__(self, ctx, params, label):
+        self.ctx = ctx
+        self.n_ens, self.workers, self.seed, self.wf, self.presteps, self.badlen, self.which = params
+        self.n = self.n_ens + 1
+        self.label = label
+        self.rng = random.Random(label)
+        self.sims = []
+
+    def rep(self, **kw):
+        d = {"family": "malformed", "params": [self.n_ens, self.workers, self.seed, self.wf, self.presteps, self.badlen,
+                                               self.which], "ctxseed": self.ctx.seed}
+        d.update(kw)
+        return d
+
+    def dump(self, sim, carry=None):
+        d = sim.op_dump()
+        # the data file goes on across the restart; the model's row list starts afresh
+        rows = d["rows"].split(";") if d["rows"] else []
+        d["rows"] = ";".join(rows[(carry or 0):])
+        if carry is not None:
+            # after the restart a row may carry the malformed vector: repex_tie's row mask assumes n entries; the rows
+            # are compared token by token through the `datafile` op (fmtCols) instead
+            d["_rows"] = d.pop("rows")
+        return d
+
+    def files(self, sim):
+        dp = os.path.join(sim.tmp, "infretis_data.txt")
+        rp = os.path.join(sim.tmp, "restart.toml")
+        return (open(dp).read() if os.path.exists(dp) else ""), (open(rp, "rb").read() if os.path.exists(rp) else None)
+
+    def run(self):
+        import tomli
+        from infretis.setup import write_header
+        ctx, rng = self.ctx, self.rng
+        steps = self.presteps + 4 + self.workers
+        sim = T.Sim(ctx, self.n_ens, self.workers, steps, seed=self.seed, wf=self.wf, eng_types=1, rng=rng)
+        sim.snaps, sim.error = [], None
+        self.sims.append(sim)
+        nxt = None
+        try:
+            write_header(sim.cfg)
+            sim.load_initial()
+            base = {"mc_moves": sim.st.mc_moves, "interfaces": sim.st.interfaces, "cap": None}
+            inflight = []
+            while sim.op_initiate():
+                inflight.append(sim.op_prep(copy.deepcopy(base)))
+            data0 = ""
+            for _ in range(self.presteps):
+                if not sim.op_loop():
+                    break
+                md = inflight.pop(rng.randrange(len(inflight)))
+                status = "ACC" if rng.random() < 0.7 else "REJ"
+                data0, _ = self.files(sim)
+                md = sim.op_treat(md, status, sim.random_new_weights(md, rng))
+                self.dump(sim)
+                if sim.st.cstep + sim.st.workers <= sim.st.tsteps:
+                    inflight.append(sim.op_prep(md))
+            data2, rest2 = self.files(sim)
+            if rest2 is None:
+                sim.close()
+                return
+            nnew = len(data2[len(data0):].splitlines())
+            cur = tomli.loads(rest2.decode())["current"]
+            sim.emit(f"restartat {nnew} n 1", f"ok cstep={cur['cstep']}", "c04:restartat")
+            weights = {int(pn): v["weights"] for pn, v in sim.st.traj_data.items()}
+            # the malformed vector
+            active = [int(a) for a in cur["active"]]
+            pn = active[self.which % len(active)]
+            old = [float(x) for x in cur.get("frac", {}).get(str(pn), ["0.0"] * self.n)]
+            bad = (old + [0.25, 0.5, 0.125])[:self.badlen]
+            sim.emit(f"setimgfrac {pn} {lst(bad, frac_token)}", "ok", "c04:setimgfrac")
+            img = dict(cur)
+            img["frac"] = dict(cur.get("frac", {}))
+            img["frac"][str(pn)] = [repr(x) for x in bad]
+            img["restarted_from"] = img["cstep"]
+            nxt = (img, weights, data2, pn, bad, rest2)
+        except Exception as e:  # noqa: BLE001
+            sim.error = e
+            ctx.fail("C04:malformed:sampler-raised", f"before the restart: {type(e).__name__}: {e}", self.rep())
+        sim.close()
+        if nxt is None:
+            return
+        img, weights, data_text, pn, bad, rest_bytes = nxt
+        sim = T.Sim(ctx, self.n_ens, self.workers, steps, seed=self.seed, wf=self.wf, eng_types=1, rng=rng,
+                    cstep=img["cstep"], image=img)
+        sim.snaps, sim.error = [], None
+        self.sims.append(sim)
+        try:
+            with open(os.path.join(sim.tmp, "infretis_data.txt"), "w") as fh:
+                fh.write(data_text)
+            with open(os.path.join(sim.tmp, "restart.toml"), "wb") as fh:
+                fh.write(rest_bytes)
+            R = sim.R
+            oldcv = R.calc_cv_vector
+            R.calc_cv_vector = lambda path, *a, **k: tuple(path.weights)
+            try:
+                paths = [T.FakePath(int(q), weights[int(q)]) for q in img["active"]]
+                try:
+                    sim.st.load_paths(paths)
+                    real = "ok"
+                except Exception as e:  # noqa: BLE001
+                    real = err_kind(e)
+                sim.emit("restoreload", real, "c04:restoreload")
+            finally:
+                R.calc_cv_vector = oldcv
+            if real != "ok":
+                ctx.count(1, malformed="load-refuses")
+                sim.close()
+                return
+            got = [float(x) for x in sim.st.traj_data[pn]["frac"]]
+            if got != bad:
+                ctx.fail("C04:malformed:load-changes-vector", f"path {pn}: file holds {bad}, load_paths restored {got}", self.rep())
+            carry = sum(1 for r in real_lines(data_text) if r[0] == "row")
+            self.dump(sim, carry)
+            base = {"mc_moves": sim.st.mc_moves, "interfaces": sim.st.interfaces, "cap": None}
+            inflight = []
+            while sim.op_initiate():
+                inflight.append(sim.op_prep(copy.deepcopy(base)))
+            for _ in range(2):
+                if not sim.op_loop():
+                    break
+                md = inflight.pop(rng.randrange(len(inflight)))
+                status = "ACC" if rng.random() < 0.5 else "REJ"
+                ws = sim.random_new_weights(md, rng)
+                d0, r0 = self.files(sim)
+                raised = None
+                try:
+                    md = sim.op_treat(md, status, ws)
+                except Exception as e:  # noqa: BLE001
+                    raised = e
+                d2, r2 = self.files(sim)
+                if raised is not None and err_kind(raised) == "err:index" and len(bad) == 0 and status == "ACC" \
+                        and pn in [int(q) for q in md["pnum_old"]]:
+                    # the malformed path is REPLACED by this step: not credited (it is no longer live), and
+                    # write_to_pathens' `frac[0]` on its empty vector is an IndexError (`fmtCols`: .error .index);
+                    # the model reports the error kind of a raise after "record weights", not the object's state
+                    ctx.count(1, malformed=f"len0-of-{self.n}:replaced:err:index")
+                    break
+                self.dump(sim, carry)
+                sim.emit("datafile", real_lines(d2), "c04:datafile")
+                if raised is not None:
+                    kind = err_kind(raised)
+                    ctx.count(1, malformed=f"len{len(bad)}-of-{self.n}:{kind}")
+                    if kind != "err:value":
+                        ctx.fail("C04:malformed:other-error", f"path {pn} with a {len(bad)}-entry vector: {type(raised).__name__}: {raised}",
+                                 self.rep())
+                    if d2 != d0 or r2 != r0:
+                        ctx.fail("C04:malformed:written-before-raise",
+                                 "treat_output raised in 'record weights' but the data file / restart.toml changed", self.rep())
+                    break
+                # no raise: the malformed path was replaced by this step, or it was busy at the recording
+                replaced = status == "ACC" and pn in [int(q) for q in md["pnum_old"]]
+                busy = pn in sim.st.locked_paths()
+                gone = pn not in sim.st.traj_data
+                ctx.count(1, malformed=f"len{len(bad)}-of-{self.n}:" + ("replaced" if replaced else ("busy" if busy else "credited")))
+                if not (replaced or busy or gone) and len(bad) != self.n:
+                    ctx.fail("C04:malformed:silently-credited",
+                             f"path {pn} carries a {len(bad)}-entry vector, was idle and live at the recording and no error was raised",
+                             self.rep())
+                if replaced or gone:
+                    break
+                if sim.st.cstep + sim.st.workers <= sim.st.tsteps:
+                    inflight.append(sim.op_prep(md))
+        except Exception as e:  # noqa: BLE001
+            sim.error = e
+            ctx.fail("C04:malformed:sampler-raised", f"after the restart: {type(e).__name__}: {e}", self.rep())
+        sim.close()
+
+
+def malformed_plans(ctx):
+    rng = ctx.rng
+    plans = []
+    for n_ens in (2, 3, 4):
+        n = n_ens + 1
+        for badlen in sorted({0, 1, n - 1, n + 1, n}):
+            for w in (1, 2):
+                if w >= n_ens and not (n_ens == 2 and w == 1):
+                    continue
+                if ctx.quick and w == 2 and badlen not in (n - 1, n + 1):
+                    continue
+                plans.append((n_ens, w, rng.randint(0, 9), bool(badlen % 2), rng.randint(1, 4), badlen, rng.randint(0, 9)))
+    if not ctx.quick:
+        for _ in range(40):
+            n_ens = rng.randint(2, 6)
+            plans.append((n_ens, rng.randint(1, max(1, n_ens - 1)), rng.randint(0, 9), rng.random() < 0.5, rng.randint(1, 6),
+                          rng.choice([0, 1, n_ens - 1, n_ens, n_ens + 2, n_ens + 3]), rng.randint(0, 9)))
+    return plans
+
+
+def one_malformed(ctx, params):
+    label = (f"malformed n_ens={params[0]} workers={params[1]} seed={params[2]} wf={params[3]} presteps={params[4]} "
+             f"badlen={params[5]} which={params[6]} ctxseed={ctx.seed}")
+    h = MalformedHistory(ctx, params, label)
+    h.run()
+    ctx.distinct(("malformed", label))
+    return h
+
+
 def crash_eq(real, model):
     if isinstance(real, str):
         return None if real == model else f"{real} vs {model}"
@@ -646,7 +856,7 @@ def compare_history(ctx, h, answers):
                 msg = lines_eq(real, mod)
             elif kind == "c04:image":
                 msg = (None if mod == "noimage" else "no restart.toml, the model has an image") if real is None else image_eq(real, mod)
-            elif kind in ("c04:idle", "c04:restoreload", "c04:restartat"):
+            elif kind in ("c04:idle", "c04:restoreload", "c04:restartat", "c04:setimgfrac"):
                 msg = None if real == mod else f"{real} vs {mod}"
             elif kind == "c04:crash":
                 msg = crash_eq(real, mod)
@@ -689,6 +899,7 @@ def run_disk(ctx):
     fmt_family(ctx, lines, todo)
     clean_family(ctx, lines, todo)
     hs = [one_history(ctx, p) for p in disk_plans(ctx)]
+    hs += [one_malformed(ctx, p) for p in malformed_plans(ctx)]
     if not ctx._driver_ok:
         return
     hl = [l for h in hs for sim in h.sims for l in sim.lines]
@@ -706,6 +917,9 @@ def run_disk(ctx):
             ctx.sample({"disk_history": h.label, "restarts": len(h.sims) - 1,
                         "last_stop_after_cleanup": {k: (v if k != "tot" else [round(x, 6) for x in v]) for k, v in last[-1].items()}})
     ctx.assumptions += [
+        "malformed restart images: one [current.frac] vector of a wrong length (0, 1, n-1, n+1 entries; n as a control); the "
+        "model side runs treatOutputChecked (numpy's shape check; = treatOutput on well-formed tables by theorem "
+        "treat_checked_eq_reachable); non-numeric entries and wrong-length `active` lists are not generated",
         "disk family: a masked ('----') column and a number of absolute value <= 1e-9 are taken as equal when the written "
         "row is compared with the model's row (long-double accumulation vs exact rationals); numbers are compared with 1e-9",
         "disk family: stops inside treat_output are rebuilt from the bytes of the two files before/after the step (old "
@@ -722,6 +936,9 @@ def replay_disk(ctx, r):
         ctx.seed = r.get("ctxseed", ctx.seed)
         p = r["params"]
         one_history(ctx, (p[0], p[1], p[2], p[3], p[4], p[5], tuple(p[6])))
+    elif r.get("family") == "malformed":
+        ctx.seed = r.get("ctxseed", ctx.seed)
+        one_malformed(ctx, tuple(r["params"]))
     elif r.get("family") == "fmt":
         lines, todo = [], []
         from infretis.classes.repex import write_to_pathens
